@@ -152,7 +152,12 @@ class GModel:
     def sentence(self, rng, depth=5, start=None):
         """Random derivation -> list of (terminal name, lexeme)."""
         out = []
-        self._expand(rng, start or self.rules[0].name, depth, out)
+        start = start or self.rules[0].name
+        if self.minh()[start] >= 10**6:
+            # the start symbol derives no sentence (unproductive grammar): token soup
+            lex = self.all_lexemes()
+            return [("<soup>", rng.choice(lex)) for _ in range(rng.randint(1, 6))]
+        self._expand(rng, start, depth, out)
         return out
 
     def _expand(self, rng, sym, depth, out):
